@@ -43,9 +43,10 @@ Qed.
 Section Run.
 Variable h : heap.
 Variable seeds : list Z.
+Variable nf : bool.
 Hypothesis WF : wf_heap h seeds = true.
 
-Lemma init_inv : Inv h seeds (init_st h seeds).
+Lemma init_inv : Inv h seeds (init_st nf h seeds).
 Proof.
   destruct (wf_heap_parts _ _ WF) as [Hc [Hs _]]. constructor; simpl.
   - lia.
@@ -56,7 +57,7 @@ Proof.
   - intros y ob Hy G. apply hget_Some_range in G. lia.
 Qed.
 
-Lemma U_init : (U h (init_st h seeds) <= length h)%nat.
+Lemma U_init : (U h (init_st nf h seeds) <= length h)%nat.
 Proof.
   unfold U. etransitivity; [apply filter_le with (p := fun _ => true); reflexivity|].
   assert (X : forall l : list nat, filter (fun _ => true) l = l) by (induction l; simpl; congruence).
@@ -64,27 +65,27 @@ Proof.
 Qed.
 
 Lemma run_spec : forall fuel root, 0 <= root < hlen h -> (length h < fuel)%nat ->
-  run_seeded fuel h seeds root <> OutOfFuel /\
-  forall s' v', run_seeded fuel h seeds root = Ok (s', v') ->
-    Inv h seeds s' /\ Ext (init_st h seeds) s' /\ res_ok h seeds (hlen (sh s')) (R root) v'.
+  run_seeded nf fuel h seeds root <> OutOfFuel /\
+  forall s' v', run_seeded nf fuel h seeds root = Ok (s', v') ->
+    Inv h seeds s' /\ Ext (init_st nf h seeds) s' /\ res_ok h seeds (hlen (sh s')) (R root) v'.
 Proof.
   intros fuel root Hr Hf. destruct (wf_heap_parts _ _ WF) as [Hc [Hs [Hi [Hn Hk]]]].
   unfold run_seeded.
   apply (dc_spec h seeds (closedb_spec h Hc) (ann_items_ok_spec h seeds Hi) (bound_names_ok_spec h Hn)
-                 (attr_keys_ok_spec h Hk) fuel (init_st h seeds) (R root) init_inv Hr).
+                 (attr_keys_ok_spec h Hk) fuel (init_st nf h seeds) (R root) init_inv Hr).
   assert (X := U_init). lia.
 Qed.
 
 (* the copy never runs out of fuel *)
 Lemma run_no_oof : forall fuel root, 0 <= root < hlen h -> (length h < fuel)%nat ->
-  run_seeded fuel h seeds root <> OutOfFuel.
+  run_seeded nf fuel h seeds root <> OutOfFuel.
 Proof. intros. apply run_spec; assumption. Qed.
 
 Definition SharedRoot (b : Z) : Prop := In b seeds \/ is_atomic h b = true.
 
 (* everything reachable from the copy is new, or reachable in the source heap from a seed / an atomic *)
 Lemma run_fresh : forall fuel root s' y, 0 <= root < hlen h -> (length h < fuel)%nat ->
-  run_seeded fuel h seeds root = Ok (s', R y) ->
+  run_seeded nf fuel h seeds root = Ok (s', R y) ->
   (forall o, o < hlen h -> hget (sh s') o = hget h o) /\ hlen h <= hlen (sh s') /\
   (forall o, reach (sh s') y o -> hlen h <= o < hlen (sh s') \/ exists b, SharedRoot b /\ reach h b o).
 Proof.
@@ -109,14 +110,14 @@ End Run.
 
 (* ---- main statements ----------------------------------------------------------------------------- *)
 
-Theorem deepcopy_fuel_suffices_l : forall h seeds root fuel,
+Theorem deepcopy_fuel_suffices_l : forall nf h seeds root fuel,
   wf_heap h seeds = true -> 0 <= root < hlen h -> (length h < fuel)%nat ->
-  run_seeded fuel h seeds root <> OutOfFuel.
+  run_seeded nf fuel h seeds root <> OutOfFuel.
 Proof. intros. eapply run_no_oof; eassumption. Qed.
 
-Theorem deepcopy_fresh_disjoint_l : forall h seeds root fuel s' y,
+Theorem deepcopy_fresh_disjoint_l : forall nf h seeds root fuel s' y,
   wf_heap h seeds = true -> 0 <= root < hlen h -> (length h < fuel)%nat ->
-  run_seeded fuel h seeds root = Ok (s', R y) ->
+  run_seeded nf fuel h seeds root = Ok (s', R y) ->
   (forall o, o < hlen h -> hget (sh s') o = hget h o)
   /\ hlen h <= hlen (sh s')
   /\ (forall o, reach (sh s') y o ->
@@ -124,13 +125,13 @@ Theorem deepcopy_fresh_disjoint_l : forall h seeds root fuel s' y,
 Proof. intros. eapply run_fresh; eassumption. Qed.
 
 (* what is reachable from the source root after the copy is what was reachable before, and is old *)
-Lemma source_reach_old : forall h seeds root fuel s' y,
+Lemma source_reach_old : forall nf h seeds root fuel s' y,
   wf_heap h seeds = true -> 0 <= root < hlen h -> (length h < fuel)%nat ->
-  run_seeded fuel h seeds root = Ok (s', R y) ->
+  run_seeded nf fuel h seeds root = Ok (s', R y) ->
   forall o, reach (sh s') root o -> reach h root o /\ 0 <= o < hlen h.
 Proof.
-  intros h seeds root fuel s' y WF Hr Hf E o H.
-  destruct (deepcopy_fresh_disjoint_l _ _ _ _ _ _ WF Hr Hf E) as [OLD _].
+  intros nf h seeds root fuel s' y WF Hr Hf E o H.
+  destruct (deepcopy_fresh_disjoint_l _ _ _ _ _ _ _ WF Hr Hf E) as [OLD _].
   destruct (wf_heap_parts _ _ WF) as [Hc _].
   assert (A : forall o, reach h root o -> hget (sh s') o = hget h o).
   { intros o' R'. apply OLD. apply (reach_in_range h root Hc Hr o' R'). }
@@ -138,27 +139,27 @@ Proof.
   split; [assumption | eapply reach_in_range; eassumption].
 Qed.
 
-Theorem deep_shares_nothing_l : forall h root fuel s' y,
+Theorem deep_shares_nothing_l : forall nf h root fuel s' y,
   wf_heap h [] = true -> 0 <= root < hlen h -> (length h < fuel)%nat ->
-  run fuel h root RDeep = Ok (s', R y) ->
+  run nf fuel h root RDeep = Ok (s', R y) ->
   forall o, reach (sh s') y o -> reach (sh s') root o ->
     exists b, is_atomic h b = true /\ reach h b o.
 Proof.
-  intros h root fuel s' y WF Hr Hf E o Hc Hs. simpl in E.
-  destruct (deepcopy_fresh_disjoint_l _ _ _ _ _ _ WF Hr Hf E) as [_ [_ F]].
-  destruct (source_reach_old _ _ _ _ _ _ WF Hr Hf E o Hs) as [_ Ro].
+  intros nf h root fuel s' y WF Hr Hf E o Hc Hs. simpl in E.
+  destruct (deepcopy_fresh_disjoint_l _ _ _ _ _ _ _ WF Hr Hf E) as [_ [_ F]].
+  destruct (source_reach_old _ _ _ _ _ _ _ WF Hr Hf E o Hs) as [_ Ro].
   destruct (F o Hc) as [X|[b [[[]|Sb] Rb]]]; [lia|]. eauto.
 Qed.
 
-Theorem scoped_shares_only_namespace_l : forall h root ns fuel s' y,
+Theorem scoped_shares_only_namespace_l : forall nf h root ns fuel s' y,
   wf_heap h (ns_seeds h ns) = true -> 0 <= root < hlen h -> (length h < fuel)%nat ->
-  run fuel h root (RScoped ns) = Ok (s', R y) ->
+  run nf fuel h root (RScoped ns) = Ok (s', R y) ->
   forall o, reach (sh s') y o -> reach (sh s') root o ->
     exists b, (In b (ns_seeds h ns) \/ is_atomic h b = true) /\ reach h b o.
 Proof.
-  intros h root ns fuel s' y WF Hr Hf E o Hc Hs. simpl in E.
-  destruct (deepcopy_fresh_disjoint_l _ _ _ _ _ _ WF Hr Hf E) as [_ [_ F]].
-  destruct (source_reach_old _ _ _ _ _ _ WF Hr Hf E o Hs) as [_ Ro].
+  intros nf h root ns fuel s' y WF Hr Hf E o Hc Hs. simpl in E.
+  destruct (deepcopy_fresh_disjoint_l _ _ _ _ _ _ _ WF Hr Hf E) as [_ [_ F]].
+  destruct (source_reach_old _ _ _ _ _ _ _ WF Hr Hf E o Hs) as [_ Ro].
   destruct (F o Hc) as [X|X]; [lia | exact X].
 Qed.
 
@@ -195,15 +196,15 @@ Qed.
 
 (* after a copy: whatever is later written into the copy (objects numbered from hlen h) or allocated
    leaves every observation of the source unchanged *)
-Theorem frame_copy_side_l : forall h seeds root fuel s' y news ws,
+Theorem frame_copy_side_l : forall nf h seeds root fuel s' y news ws,
   wf_heap h seeds = true -> 0 <= root < hlen h -> (length h < fuel)%nat ->
-  run_seeded fuel h seeds root = Ok (s', R y) ->
+  run_seeded nf fuel h seeds root = Ok (s', R y) ->
   (forall w, In w ws -> hlen h <= fst w) ->
   (forall o, reach h root o <-> reach (write_all (sh s' ++ news) ws) root o)
   /\ (forall o, reach h root o -> hget (write_all (sh s' ++ news) ws) o = hget h o).
 Proof.
-  intros h seeds root fuel s' y news ws WF Hr Hf E W.
-  destruct (deepcopy_fresh_disjoint_l _ _ _ _ _ _ WF Hr Hf E) as [OLD [LEN _]].
+  intros nf h seeds root fuel s' y news ws WF Hr Hf E W.
+  destruct (deepcopy_fresh_disjoint_l _ _ _ _ _ _ _ WF Hr Hf E) as [OLD [LEN _]].
   destruct (wf_heap_parts _ _ WF) as [Hc _].
   assert (RG : forall o, reach h root o -> 0 <= o < hlen h) by (apply reach_in_range; assumption).
   assert (A0 : forall o, reach h root o -> hget (sh s') o = hget h o).
@@ -219,16 +220,16 @@ Qed.
 
 (* after a copy: whatever is later written into source objects outside the shared region (what the
    seeds and atomic objects reach) leaves every observation of the copy unchanged *)
-Theorem frame_source_side_l : forall h seeds root fuel s' y news ws,
+Theorem frame_source_side_l : forall nf h seeds root fuel s' y news ws,
   wf_heap h seeds = true -> 0 <= root < hlen h -> (length h < fuel)%nat ->
-  run_seeded fuel h seeds root = Ok (s', R y) ->
+  run_seeded nf fuel h seeds root = Ok (s', R y) ->
   (forall w, In w ws -> fst w < hlen h /\
       ~ exists b, (In b seeds \/ is_atomic h b = true) /\ reach h b (fst w)) ->
   (forall o, reach (sh s') y o <-> reach (write_all (sh s' ++ news) ws) y o)
   /\ (forall o, reach (sh s') y o -> hget (write_all (sh s' ++ news) ws) o = hget (sh s') o).
 Proof.
-  intros h seeds root fuel s' y news ws WF Hr Hf E W.
-  destruct (deepcopy_fresh_disjoint_l _ _ _ _ _ _ WF Hr Hf E) as [OLD [LEN FR]].
+  intros nf h seeds root fuel s' y news ws WF Hr Hf E W.
+  destruct (deepcopy_fresh_disjoint_l _ _ _ _ _ _ _ WF Hr Hf E) as [OLD [LEN FR]].
   destruct (wf_heap_parts _ _ WF) as [Hc [Hs _]].
   apply frame_writes_l.
   - intros o Ro. destruct (FR o Ro) as [X|[b [Sb Rb]]]; [lia|].
